@@ -1,3 +1,4 @@
+Set Default Timeout 30.
 (* C15_text -- the value layer under the Redis-style commands: the three frames the converters build (SET / INCR /
    APPEND with the KEY property) are constructor-built frames of Data/Spec.v, so ProcessLockData on them is the
    sequential interpreter Spec.apply (Data/Refine.v, reused); rendering of a stored frame by the text result writers. *)
